@@ -170,7 +170,7 @@ func workloads() []workload {
 			return observe.Run("cmap", bytes.NewReader(cmapFile(n))).Obs
 		}})
 	}
-	for _, in := range corpus.Fonts() {
+	for _, in := range append(corpus.Fonts(), corpus.FontsT1gen()...) {
 		in := in
 		ws = append(ws, workload{"type1.Read(" + in.Name + ")", func() string {
 			return observe.Run("font", bytes.NewReader(in.Data)).Obs
